@@ -3,13 +3,15 @@
 import json, os, shutil, sys
 pid, caught = sys.argv[1], sys.argv[2]
 ran = sys.argv[3] if len(sys.argv) > 3 else ''
-src = f'/tmp/seed/{pid}'
-dst = f'/verif/seeded/{pid}'
+root = os.environ.get('SEED_ROOT', '/tmp/seed')
+suffix = os.environ.get('SEED_SUFFIX', '')
+src = f'{root}/{pid}'
+dst = f'/verif/seeded/{pid}{suffix}'
 os.makedirs(dst, exist_ok=True)
 for f in ('patch.diff', 'demo.py', 'NOTES.md'):
     shutil.copy(os.path.join(src, f), os.path.join(dst, f))
 demo = os.path.join(dst, 'demo.py')
-text = open(demo).read().replace(f"sys.path.insert(0, '/tmp/seed/{pid}')",
+text = open(demo).read().replace(f"sys.path.insert(0, '{root}/{pid}')",
                                  f"sys.path.insert(0, __import__('os').environ.get('SEED_REPO', '/tmp/seed/{pid}'))")
 open(demo, 'w').write(text)
 notes = open(os.path.join(src, 'NOTES.md')).read()
